@@ -156,6 +156,20 @@ func TestPropBitmap(t *testing.T) {
 					m.onFreeValue(v)
 				}
 			},
+			"setAllocation": func(rt *rapid.T) {
+				// replay of a record from the authoritative store ("forcibly sets an allocation")
+				s := sub.Draw(rt, "sub")
+				n, v := pickVal(rt)
+				err := a.SetAllocation(s, n)
+				m.logf("setAllocation(%s,%s)=%s", s, v, okerr(err))
+				if err == nil {
+					given = append(given, v)
+					if m.has[s] != v {
+						m.onFree(s) // the record moved s to v
+					}
+					m.onAlloc(rt, s, v, inRange, lookup)
+				}
+			},
 			"reload": func(rt *rapid.T) {
 				b, err := json.Marshal(a)
 				if err != nil {
